@@ -146,7 +146,14 @@ func Start(peers []string, dataDir string) *P2P {
 
 func (p *P2P) Close() {
 	p.listener.Close()
+	// the connection handlers remove their entry (Kick) as soon as their socket closes: take a copy under the lock
+	p.RLock()
+	conns := make([]*Connection, 0, len(p.Connections))
 	for _, v := range p.Connections {
+		conns = append(conns, v)
+	}
+	p.RUnlock()
+	for _, v := range conns {
 		v.Close()
 	}
 
